@@ -558,7 +558,7 @@ def _run(plan, k, fake):
                             dflt = "at_gene_default" if c["expr"].get(nm) != 2 or b["expr"][nm] == 2 else "reset_to_normal"
                             k.violation("child_diff", "expression_level_not_inherited", "replicate:inherit_expression",
                                         f"{nm}: parent level {b['expr'][nm]} child level {c['expr'].get(nm)} ({dflt})")
-                        elif b["expr"][nm] != _default_level(cfg, lineage, nm, b):
+                        elif _default_level(cfg, lineage, nm, b) not in (None, b["expr"][nm]):
                             k.probe("inherited_level_differs_from_gene_default")
                 muts = [(nm, canon(v)) for nm, v in op[2] if nm in b["genes"]]
                 if muts:
